@@ -211,8 +211,11 @@ class VariableBoundVisitor(ModelVisitor):
         The integer values the propagators work with are the values being 
         compared only if the signed operand is a non-negative constant"""
         if s_e.is_signed() and not u_e.is_signed():
-            return (not IsNonRandExprVisitor().is_nonrand(s_e) or 
-                    int(s_e.val()) < 0)
+            if (isinstance(s_e, (ExprLiteralModel, ExprFieldRefModel)) and
+                IsNonRandExprVisitor().is_nonrand(s_e)):
+                return int(s_e.val()) < 0
+            else:
+                return True
         return False
         
     def lhsvar_rhsvar_propagator(self,
